@@ -452,3 +452,27 @@ Proof.
     + simpl. rewrite (teval_wf e1 H1), (teval_wf e2 H2). reflexivity.
     + simpl. lia.
 Qed.
+
+(* the boolean relation the judge evaluates is the index form of min_at_any_order's conclusion *)
+Theorem min_at_ok_of_loop t ms ms' : Permutation ms ms' ->
+  match min_at_loop t ms' None with
+  | None => min_at_ok t ms (None, 0) = true
+  | Some (m, g) => exists i, nth_error ms i = Some m /\ min_at_ok t ms (Some (Z.of_nat i), g) = true
+  end.
+Proof.
+  intros P. pose proof (min_at_any_order t ms ms' P) as H.
+  destruct (min_at_loop t ms' None) as [[m g]|].
+  - destruct H as (Hin & Hg & Hmin). destruct (In_nth_error ms m Hin) as [i Hi]. exists i. split; [exact Hi|].
+    unfold min_at_ok. simpl fst. simpl snd.
+    assert (Hlt : (i < List.length ms)%nat) by (apply nth_error_Some; rewrite Hi; discriminate).
+    apply andb_true_intro. split; [apply andb_true_intro; split; [apply andb_true_intro; split|]|].
+    + apply Z.leb_le. lia.
+    + apply Z.ltb_lt. unfold zlen. lia.
+    + rewrite Nat2Z.id. apply Z.eqb_eq.
+      rewrite (nth_indep _ 0 (fst (mode_magnitude_at_w t m))) by (rewrite map_length; exact Hlt).
+      rewrite (map_nth (fun m0 => fst (mode_magnitude_at_w t m0)) ms m i) at 1.
+      rewrite (nth_error_nth ms i m Hi). symmetry. exact Hg.
+    + apply forallb_forall. intros x Hx. apply in_map_iff in Hx. destruct Hx as (m' & <- & Hm').
+      apply Z.leb_le. apply Hmin. exact Hm'.
+  - subst ms. reflexivity.
+Qed.
